@@ -159,6 +159,23 @@ func (g *Gen) Op(name string, ac *chain.Actor, ctx sdk.Context) sdk.Msg {
 		}
 	case "swapOut1":
 		max := math.NewInt(1e13)
+		if g.hostile() && r.Intn(3) == 0 {
+			// boundary amounts: exactly a half / two thirds / three quarters of a constant-product
+			// pool's reserve (the price formula raises exactly 2, 3, 4 to the weight ratio)
+			pid := uint64(2)
+			if g.Pool3 && r.Intn(2) == 0 {
+				pid = 3
+			}
+			if p, ok := a.AmmKeeper.GetPool(ctx, pid); ok && len(p.PoolAssets) == 2 {
+				oi := r.Intn(2)
+				out, in := p.PoolAssets[oi].Token, p.PoolAssets[1-oi].Token
+				k := int64(2 + r.Intn(3))
+				amt := out.Amount.MulRaw(k - 1).QuoRaw(k)
+				if amt.IsPositive() {
+					return &ammtypes.MsgSwapExactAmountOut{Sender: me, Routes: []ammtypes.SwapAmountOutRoute{{PoolId: pid, TokenInDenom: in.Denom}}, TokenOut: sdk.NewCoin(out.Denom, amt), TokenInMaxAmount: math.NewIntWithDecimal(1, 15)}
+				}
+			}
+		}
 		switch r.Intn(4) {
 		case 0:
 			return &ammtypes.MsgSwapExactAmountOut{Sender: me, Routes: []ammtypes.SwapAmountOutRoute{{PoolId: 2, TokenInDenom: "uusdc"}}, TokenOut: chain.CoinI("uelys", g.Amt(1, 1e10)), TokenInMaxAmount: max}
@@ -221,6 +238,16 @@ func (g *Gen) Op(name string, ac *chain.Actor, ctx sdk.Context) sdk.Msg {
 				return &ammtypes.MsgJoinPool{Sender: me, PoolId: 3, MaxAmountsIn: sdk.NewCoins(chain.CoinI(d, g.Amt(1e3, 5e10))), ShareAmountOut: math.NewInt(1)}
 			}
 			d2 := []string{"uusdc", "uelys"}[r.Intn(2)]
+			if g.hostile() {
+				// exactly 1x / 2x / 3x the reserve of the joined asset
+				if p, ok := a.AmmKeeper.GetPool(ctx, 2); ok {
+					for _, as := range p.PoolAssets {
+						if as.Token.Denom == d2 && as.Token.Amount.LT(math.NewIntWithDecimal(1, 14)) {
+							return &ammtypes.MsgJoinPool{Sender: me, PoolId: 2, MaxAmountsIn: sdk.NewCoins(sdk.NewCoin(d2, as.Token.Amount.MulRaw(int64(1+r.Intn(3))))), ShareAmountOut: math.NewInt(1)}
+						}
+					}
+				}
+			}
 			return &ammtypes.MsgJoinPool{Sender: me, PoolId: 2, MaxAmountsIn: sdk.NewCoins(chain.CoinI(d2, g.Amt(1e3, 5e10))), ShareAmountOut: math.NewInt(1)}
 		}
 		if w.ElysMarketPool != 0 && r.Intn(4) == 0 {
